@@ -207,13 +207,13 @@ DEFS = {
 }
 
 
-def _definition_table(prog: Program, ctx: Ctx) -> None:
+def _definition_table(prog: Program, ctx: Ctx, rule: str = "R5") -> None:
     """R5: the visitor's function handlers evaluated on real `def` nodes, alone and in every ordered pair inside one class body."""
     import collections
 
     from sa.absint import Native, Obj
 
-    ctx.rule("R5", "what the visitor builds for a definition (kind, labels, parameter names and kinds, overloads, setter) depends on that definition only: "
+    ctx.rule(rule, "what the visitor builds for a definition (kind, labels, parameter names and kinds, overloads, setter) depends on that definition only: "
                    "every definition gives the same object alone and after any other definition in the same class body; properties become attributes, "
                    "functions list the parameters CPython binds")
     M = "_griffe.models"
@@ -286,7 +286,7 @@ def _definition_table(prog: Program, ctx: Ctx) -> None:
         detail = f"`{dname}` alone: {got}"
         if dname == "overloads without implementation":
             ok = isinstance(got, dict) and "x" not in got and got.get("<pending overloads>") == {"x": [["x"], ["x", "y"]]}
-            ctx.ob("R5", f"definition|{dname}", ok, detail + "; expected no member and both signatures pending, in order", where(vf))
+            ctx.ob(rule, f"definition|{dname}", ok, detail + "; expected no member and both signatures pending, in order", where(vf))
             continue
         ok = isinstance(got, dict) and "x" in got and (got["x"]["kind"] == ("Attribute" if is_prop else "Function")) and not got.get("<pending overloads>")
         if ok and not is_prop:
@@ -320,7 +320,7 @@ def _definition_table(prog: Program, ctx: Ctx) -> None:
             ok = got["x"]["overloads"] == [["x"], ["x"]]
         if ok and dname == "overloaded (typing_extensions)":
             ok = got["x"]["overloads"] == [["x"], ["x", "y"]]  # in declaration order
-        ctx.ob("R5", f"definition|{dname}", ok, detail, where(vf))
+        ctx.ob(rule, f"definition|{dname}", ok, detail, where(vf))
     n = 0
     for (d1, t1), (d2, t2) in itertools.product(DEFS.items(), repeat=2):
         got = visit([t1.format(n="first"), t2.format(n="second")])
@@ -332,10 +332,10 @@ def _definition_table(prog: Program, ctx: Ctx) -> None:
             if isinstance(alone[dn_], dict) and alone[dn_].get("<pending overloads>"):
                 pend[nm_] = alone[dn_]["<pending overloads>"]["x"]
         ok = isinstance(got, dict) and got.get("second") == want2 and got.get("first") == want1 and got.get("<pending overloads>") == pend
-        ctx.ob("R5", f"independent|{d1} then {d2}", ok,
+        ctx.ob(rule, f"independent|{d1} then {d2}", ok,
                f"`{d2}` defined after `{d1}`: {got.get('second') if isinstance(got, dict) else got}; alone: {want2}" + ("" if ok else f" (first: {got.get('first') if isinstance(got, dict) else got}, alone {want1})"),
                where(vf))
-    ctx.expect_min("R5", n, 60)
+    ctx.expect_min(rule, n, 60)
 
 
 def _shape_class(text: str) -> str:
